@@ -63,6 +63,41 @@ func runCmpGuard(c *core.Ctx) {
 		})
 	}
 	c.Min("interface==interface comparisons", n, 5)
+	// the same hazard through hashing: an interface value whose dynamic type the module does not fix, used as a map key
+	nk := 0
+	for _, fn := range p.HandFuncs() {
+		if pk := load.FnPkg(fn); pk != nil && strings.HasSuffix(pk.Path(), "/testutils") {
+			continue
+		}
+		sx.EachInstr(fn, func(in ssa.Instruction) {
+			var m, key ssa.Value
+			switch x := in.(type) {
+			case *ssa.Lookup:
+				m, key = x.X, x.Index
+			case *ssa.MapUpdate:
+				m, key = x.Map, x.Key
+			default:
+				return
+			}
+			mt, ok := types.Unalias(m.Type()).Underlying().(*types.Map)
+			if !ok || !sx.IsInterface(mt.Key()) {
+				return
+			}
+			nk++
+			construct := fmt.Sprintf("%s: map key %s", load.FnName(fn), describeVal(key))
+			pos := sx.InstrPos(in)
+			if mi, ok := key.(*ssa.MakeInterface); ok && !sx.IsInterface(mi.X.Type()) && types.Comparable(mi.X.Type()) {
+				c.Ob(construct, pos, true, "the key is boxed from the comparable type "+load.TypeName(mi.X.Type()))
+				return
+			}
+			if why, ok := comparableGuardAt(in.Block(), key); ok {
+				c.Ob(construct, pos, true, why)
+				return
+			}
+			c.Fail(construct, pos, "an interface value is used as a map key without a Comparable() guard: hashing panics when its dynamic type is not comparable (a slice- or map-based error type)")
+		})
+	}
+	c.Note("R-CMP-GUARD: %d map operations keyed by an interface value", nk)
 }
 
 // pointerSentinel: op is a load of a package-level variable all of whose
@@ -91,6 +126,11 @@ func pointerSentinel(p *load.Program, op ssa.Value) (string, bool) {
 // comparableGuard: bo's block is dominated by the true edge of an If whose
 // condition is reflect.TypeOf(X).Comparable() with X one of bo's operands.
 func comparableGuard(bo *ssa.BinOp) (string, bool) {
+	return comparableGuardAt(bo.Block(), bo.X, bo.Y)
+}
+
+// comparableGuardAt: block blk is dominated by the true edge of reflect.TypeOf(X).Comparable() for one of the operands.
+func comparableGuardAt(blk *ssa.BasicBlock, ops ...ssa.Value) (string, bool) {
 	isCmpOf := func(v ssa.Value) bool {
 		call, ok := v.(*ssa.Call)
 		if !ok || !call.Call.IsInvoke() || call.Call.Method.Name() != "Comparable" {
@@ -108,9 +148,14 @@ func comparableGuard(bo *ssa.BinOp) (string, bool) {
 			arg = mi.X
 		}
 		arg = identity(arg)
-		return arg == identity(bo.X) || arg == identity(bo.Y)
+		for _, op := range ops {
+			if arg == identity(op) {
+				return true
+			}
+		}
+		return false
 	}
-	for b := bo.Block(); b != nil; b = b.Idom() {
+	for b := blk; b != nil; b = b.Idom() {
 		d := b.Idom()
 		if d == nil {
 			break
